@@ -49,7 +49,7 @@ def qSorted (less : Bool) (ws : List (Nat × Int)) (desc asc : List Nat) (h l : 
     && h == desc.head?.getD 0 && l == desc.getLast?.getD 0
 
 /-- Every handed-out event is triggered iff its slot is at or below the last evicted slot. -/
-def qEvict (last : Option Nat) (evs : List (Nat × Bool)) : Bool :=
+def qEvict (last : Option Int) (evs : List (Int × Bool)) : Bool :=
   evs.all (fun p => p.2 == (match last with | none => false | some l => decide (p.1 ≤ l)))
 
 /-- WaitGroup at quiescence: nothing pending after at least one `Done` took effect ⇒ triggered; triggered ⇒
